@@ -175,7 +175,7 @@ func main() {
 		fdir := filepath.Join(verifDir, "props", "testdata", "fuzz", fz.Target)
 		before := listDir(fdir)
 		cmd := exec.Command(bin, "-test.run", "^$", "-test.fuzz", "^"+fz.Target+"$", "-test.fuzztime", fmt.Sprintf("%ds", fz.Seconds),
-			"-test.fuzzcachedir", filepath.Join(verifDir, ".cache", "fuzz"), "-test.timeout", fmt.Sprintf("%ds", fz.Seconds+300))
+			"-test.fuzzminimizetime", "200x", "-test.fuzzcachedir", filepath.Join(verifDir, ".cache", "fuzz"), "-test.timeout", fmt.Sprintf("%ds", fz.Seconds+300))
 		cmd.Dir = filepath.Join(verifDir, "props")
 		cmd.Env = append(os.Environ(), "VERIF_SHARD=99", "VERIF_TIER="+tier, "VERIF_WORK="+work, "VERIF_DIR="+verifDir, "VERIF_FUZZING=1")
 		out, err := cmd.CombinedOutput()
@@ -241,6 +241,11 @@ func main() {
 			continue
 		}
 		os.WriteFile(filepath.Join(work, fmt.Sprintf("shard.%d.log", r.shard)), r.out, 0o644)
+		if bytes.Contains(r.out, []byte("WARNING: DATA RACE")) {
+			logp := filepath.Join(work, fmt.Sprintf("shard.%d.log", r.shard))
+			viols = append(viols, viol{"data-race/" + raceSite(r.out), "the race detector reported a data race while the property ran (full report in the replay file)", logp})
+			continue
+		}
 		if r.timeout {
 			inconclusive = append(inconclusive, fmt.Sprintf("shard %d timed out after %ds", r.shard, tc.Timeout))
 			continue
@@ -326,6 +331,20 @@ func main() {
 		fmt.Println("INCONCLUSIVE: no case was evaluated")
 		os.Exit(2)
 	}
+}
+
+// raceSite names the first library frame of a race report.
+func raceSite(out []byte) string {
+	for _, l := range strings.Split(string(out), "\n") {
+		l = strings.TrimSpace(l)
+		if strings.HasPrefix(l, "github.com/russellhaering/gosaml2") {
+			if i := strings.LastIndex(l, "("); i > 0 {
+				l = l[:i]
+			}
+			return strings.TrimPrefix(l, "github.com/russellhaering/gosaml2")
+		}
+	}
+	return "unknown"
 }
 
 func oneLine(s string) string {
